@@ -23,6 +23,7 @@ type refRule struct {
 	segs     []string // pattern segments; "**" is the multi-segment wildcard
 	ok       bool     // inside the documented language (each ** a whole segment, no regexp-active character)
 	raw      string
+	never    bool // malformed (unclosed bracket): matches nothing
 }
 
 const regexpActive = "[]\\"
@@ -54,7 +55,10 @@ func refParseLine(line string) (refRule, bool) {
 	if p == "" && !r.dirForm {
 		r.ok = false
 	}
-	if strings.ContainsAny(p, regexpActive) {
+	if strings.Contains(p, "[") && !strings.Contains(p, "]") && !strings.ContainsAny(strings.ReplaceAll(p, "[", ""), regexpActive) {
+		// an unclosed bracket: the line is malformed; it matches nothing and the other rules stay in force
+		r.never = true
+	} else if strings.ContainsAny(p, regexpActive) {
 		r.ok = false
 	}
 	r.segs = strings.Split(p, "/")
@@ -125,6 +129,9 @@ func segsMatch(pat, path []string) bool {
 }
 
 func (r refRule) matches(path string) bool {
+	if r.never {
+		return false
+	}
 	pat := append([]string{}, r.segs...)
 	if r.dirForm {
 		pat = append(pat, "**")
